@@ -264,3 +264,28 @@ func H_C02_string_after_nested_mutation() {
 	}
 	verifReach("end")
 }
+
+// every string of two (thorough: three) arbitrary Unicode scalar values as a string token and as a key
+func H_C02_string_runes() {
+	n := 2
+	if verifTier() > 0 {
+		n = 3
+	}
+	verifBound("STRRUNES", n)
+	s := ""
+	for i := 0; i < n; i++ {
+		s += string(hValidRune())
+	}
+	var c any
+	if nondetIntRange(0, 1) == 0 {
+		c = NewList(s)
+	} else {
+		c = NewObject(s, 1)
+	}
+	got, ok := refParse(hStringAny(c))
+	verifAssert(ok, "String() is one syntactically valid RFC 8259 text")
+	if ok {
+		verifAssert(hExact(hSnapAny(c), got), "a decoder recovers byte-identical strings and keys")
+	}
+	verifReach("end")
+}
